@@ -1,9 +1,9 @@
 package props
 
 import (
-	"strings"
 	"encoding/json"
 	"fmt"
+	"strings"
 	"testing"
 
 	"github.com/skx/evalfilter/v2/object"
